@@ -32,11 +32,19 @@ Inductive c07case :=
 (* one property in `object Foo { ... }`, nothing else in the file *)
 | CIso (p : prop) (ref_path : string)
        (v : verdict) (imports : list string) (exts : list string) (pt : string) (repeated opt3 : bool)
+       (nerrs : nat) (all_positioned : bool)   (* on a conversion error: error leaves returned, all positioned inside the file *)
 (* one top-level enum alone in a file: imports of the file, extension names on the enum and its values *)
 | CEnum (e : enum_decl) (v : verdict) (imports : list string) (exts : list string)
 (* one service alone in a file: imports of the generated service file, extension names on the service,
    its methods and the request/response messages (not on their fields) *)
-| CService (sv : service) (v : verdict) (imports : list string) (exts : list string).
+| CService (sv : service) (v : verdict) (imports : list string) (exts : list string)
+(* one topic alone in a file: imports of the generated topic file (ref_path = the metadata type's file),
+   extension names on its services and messages *)
+| CTopic (t : topic) (ref_path : string) (v : verdict) (imports : list string) (exts : list string)
+(* an object (optionally an entity part) / a oneof alone in a file: message-level extension names *)
+| CShell (oneof entity : bool) (v : verdict) (imports : list string) (exts : list string)
+(* a whole source file of several declarations: the verdict and the import sets of the three output files *)
+| CFile (ds : list decl) (ref_path : string) (v : verdict) (main service topic : list string).
 
 Definition decl_check (s : dstate) (v : verdict) (imports exts : list string) : bool :=
   verdict_eqb (verdict_d s) v &&
@@ -47,7 +55,7 @@ Definition decl_check (s : dstate) (v : verdict) (imports exts : list string) : 
 
 Definition c07_check (c : c07case) : bool :=
   match c with
-  | CIso p ref_path v imports exts pt rep opt3 =>
+  | CIso p ref_path v imports exts pt rep opt3 nerrs allpos =>
       let o := compile_iso p in
       verdict_eqb (o_verdict o) v &&
       match v, o_desc o with
@@ -59,8 +67,26 @@ Definition c07_check (c : c07case) : bool :=
           (* observed on the LINKED descriptor: a repeated field never reports proto3_optional *)
           && Bool.eqb (d_opt3 d && negb (d_repeated d)) opt3
       | VOk, None => false
+      | VConvErr, _ => Nat.eqb (iso_nerr p) nerrs && Bool.eqb errors_positioned allpos
       | _, _ => true
       end
   | CEnum e v imports exts => decl_check (compile_enum e) v imports exts
   | CService sv v imports exts => decl_check (compile_service sv) v imports exts
+  | CTopic t ref_path v imports exts =>
+      let s := compile_topic t in
+      verdict_eqb (verdict_d s) v &&
+      match v with
+      | VOk => set_eq (map (imp_path_with ref_path) (d_imps s)) imports && set_eq (map ext_name (d_exts s)) exts
+      | _ => true
+      end
+  | CShell oneof entity v imports exts =>
+      decl_check (if oneof then compile_oneof_shell else compile_object_shell entity) v imports exts
+  | CFile ds ref_path v main service topic =>
+      verdict_eqb (file_verdict ds) v &&
+      match v with
+      | VOk => set_eq (map (imp_path_with ref_path) (d_imps (file_state FMain ds))) main
+               && set_eq (map (imp_path_with ref_path) (d_imps (file_state FService ds))) service
+               && set_eq (map (imp_path_with ref_path) (d_imps (file_state FTopic ds))) topic
+      | _ => true
+      end
   end.
